@@ -20,7 +20,8 @@ func init() {
 			"R2 only unfinished work is reset (uncheckedReset only from the three checked entry points, each dominated by Failed / queued_locally / Queued / Running-and-dead; Node.reset only for Failed or orphaned Running nodes; no path resets a Complete object), " +
 			"R3 a new attempt gets a new directory (uniquifier cleared before uniquify) and stale journal entries are ignored, " +
 			"R4 lock life-cycle (handler registered before the lock is written, handled signals run every registered handler before exiting and after critical sections drained), " +
-			"R5 critical sections are balanced on all paths, no HandleSignal implementation enters one, and the multi-file updates named by the property are inside one. " +
+			"R5 critical sections are balanced on all paths, no HandleSignal implementation enters one, and the multi-file updates named by the property are inside one, " +
+			"R6 a reset node re-reads its state, R7 unfinished work found at restart IS reset (once state == Failed in checkedReset / queued_locally exists in restartQueuedLocal / state == Queued or the recorded pid is dead in restartLocal holds on an edge, every path to the entry point's return passes uncheckedReset; verdict-returning helpers are followed into their callers). " +
 			"NOT decided: equality of final outputs with an uninterrupted run, behaviour at each individual crash prefix, PID reuse.",
 		Assumptions: commonAssumptions,
 	}
